@@ -197,6 +197,19 @@ example :
     deStream .utf8 ty (lexemes d) = deTape .utf8 ty (tapeOf d) := by
   refine ⟨by rfl, by rfl, by rfl⟩
 
+/-- A variable `@name` (or an interpolated expression `@[ … ]`) is one unquoted scalar for both parsers (C01: `Scal.ValidX`,
+C07: `C07_slice_faithful_x`), and both deserializer paths read it as an ordinary string: a `String` / `any` target gets the
+decoded bytes, `@` included; nothing is evaluated or substituted. -/
+theorem C02_variable_is_string (enc : Enc) (r : Bytes) (o : Op) (toks : List TTok) (i : Nat)
+    (hq : toks[i]? = some (.unq (64 :: r))) (rest : List RTok) :
+    tde enc toks 1 .str (.opval o i) = .ok (.str (decode enc (64 :: r))) ∧
+    sde enc 1 .str (.unq (64 :: r)) o rest = .ok (.str (decode enc (64 :: r)), rest) ∧
+    tde enc toks 1 .any (.opval o i) = .ok (.str (decode enc (64 :: r))) ∧
+    sde enc 1 .any (.unq (64 :: r)) o rest = .ok (.str (decode enc (64 :: r)), rest) := by
+  have h1 := C02_scalar_dispatch enc .str rfl (64 :: r) o 1 (by simp [Ty.wrapDepth]) toks i (Or.inl hq) (.unq (64 :: r)) (Or.inl rfl) rest
+  have h2 := C02_scalar_dispatch enc .any rfl (64 :: r) o 1 (by simp [Ty.wrapDepth]) toks i (Or.inl hq) (.unq (64 :: r)) (Or.inl rfl) rest
+  exact ⟨h1.1, h1.2, h2.1, h2.2⟩
+
 /-- Mixed containers stay outside the document type, the paths differ there: from the BYTES
 `a={ b=1 c d }` into `st(a:map(str))` both parsers succeed, the tape path (synthetic `remainder` key
 with the rest as an array) refuses, the reader path reads `c = d` as a field. -/
